@@ -107,14 +107,25 @@ def _wrap(v, bits):
     return v - (1 << bits) if v >> (bits - 1) else v
 
 
-def lit_value(word):
-    """value of one numeric literal (without exact part): cell or NotGrammar"""
+def is_k1_word(word):
+    """an unsuffixed octal literal whose decimal reading differs (finding C11-K1)"""
+    m = RE_INT.match(word)
+    return bool(m and m.group(3) == b"" and len(m.group(2)) > 1 and m.group(2)[:1] == b"0"
+                and m.group(2)[:2] not in (b"0x", b"0X") and int(m.group(2), 8) != int(m.group(2), 10))
+
+
+def lit_value(word, k1=False):
+    """value of one numeric literal (without exact part): cell or NotGrammar.
+    k1: the reading of known finding C11-K1 (an unsuffixed literal with a leading zero is decimal)"""
     m = RE_INT.match(word)
     if m:
         neg, body, suf = m.group(1) == b"-", m.group(2), m.group(3)
         if body[:2] in (b"0x", b"0X"):
             mag = int(body[2:], 16)
             based = True
+        elif len(body) > 1 and body[:1] == b"0" and k1 and suf == b"":
+            mag = int(body, 10)
+            based = False
         elif len(body) > 1 and body[:1] == b"0":
             mag = int(body, 8)
             based = True
@@ -158,9 +169,11 @@ def lit_value(word):
 
 
 class Reader:
-    def __init__(self, text):
+    def __init__(self, text, k1=False):
         self.t = text
         self.n = len(text)
+        self.k1 = k1
+        self.k1_words = 0          # literals on which the two readings differ
 
     def ws(self, p):
         while p < self.n and self.t[p] in WS:
@@ -267,7 +280,9 @@ class Reader:
         word = self.t[p:e]
         if re.match(rb"[0-9]{4}-[0-9]{2}-[0-9]{2}", word):
             raise NotGrammar("dates are not part of the grammar read here")
-        cell = lit_value(word)
+        cell = lit_value(word, self.k1)
+        if is_k1_word(word):
+            self.k1_words += 1
         q = self.ws(e)
         if q < self.n and self.t[q] == 40:
             if cell[0] not in "fd":
@@ -354,6 +369,11 @@ class Reader:
         if x[0] == 'rep' and x[2][0] == 'v' and x[1] != 0:
             return x[2][1]
         if x[0] == 'range' and x[1] != 0:
+            if x[3][0] in "fd":
+                # the manual calls the last value of "a b ... c" "c"; the code keeps (start, step, count) and
+                # computes it; for floats the two differ within the tolerance: which one is the left
+                # neighbour of a following range is not defined by the manual
+                return ('float-range-end', x[3][0])
             return range_elem(x[2], x[3], x[1] - 1)
         return None
 
@@ -364,6 +384,10 @@ class Reader:
         if b[0] not in "cihfd" or c[0] != b[0]:
             raise NotGrammar("range of non-numeric / different types")
         a = self.prev_value(out)
+        if a is not None and a[0] == 'float-range-end':
+            if a[1] == b[0]:
+                raise NotGrammar("left neighbour is the computed end of a float range")
+            a = None
         useful = a is not None and a[0] == b[0] and num(a) != num(b)
         if num(b) == num(c):
             raise NotGrammar("a b ... b")
@@ -377,10 +401,17 @@ class Reader:
                 raise NotGrammar("no natural n with b + n d = c")
             n = int(x)
         else:
+            # the manual: "an n must exist such that |b + n d - c| <= 0.001"; the nearest n is the one that
+            # exists if any does.  Too close to call for a reference that computes exactly while the code
+            # computes in float / double: quotient near a half, error near the tolerance.
+            if x < 0:
+                raise NotGrammar("range end on the wrong side")
             n = int(x + Fraction(1, 2))
             err = abs(num(c) - num(b) - n * num(d))
             if n < 1 or n > 10 ** 6:
                 raise NotGrammar("no natural n")
+            if abs(x - n) > Fraction(49, 100):
+                raise NotGrammar("two candidates for n")
             if err > Fraction(9, 10000):
                 raise NotGrammar("float range end off by more than the tolerance (or too close to it)")
         return ('range', n + 1, d, b)
@@ -392,6 +423,10 @@ class Reader:
             return ('rep', 0, lhs)
         b = lhs[1]
         a = self.prev_value(out)
+        if a is not None and a[0] == 'float-range-end':
+            if a[1] == b[0]:
+                raise NotGrammar("left neighbour is the computed end of a float range")
+            a = None
         if b[0] in "TF" and a is not None and a[0] in "TF" and a[0] != b[0]:
             raise NotGrammar("open range of booleans with a different left neighbour")
         useful = b[0] in "cihfd" and a is not None and a[0] == b[0] and num(a) != num(b)
@@ -469,13 +504,24 @@ def check_ranges(items):
             check_ranges(x[2][1])
 
 
-def read_text(text):
+def read_text(text, k1=False):
     try:
-        its, _ = Reader(text).items(0, False)
+        its, _ = Reader(text, k1).items(0, False)
         check_ranges(its)
         return its
     except NotGrammar:
         return None
+
+
+def k1_trigger(text):
+    """finding C11-K1: the text has an unsuffixed integer literal with a leading zero whose octal and decimal
+    readings differ (counted by the reference reader while it reads the text as the manual says)"""
+    r = Reader(text)
+    try:
+        r.items(0, False)
+    except NotGrammar:
+        pass
+    return r.k1_words > 0
 
 
 # cells in the notation of the harness -------------------------------------------------------
@@ -633,6 +679,12 @@ def values_equal(a, b, tol):
             fx, fy = num(x), num(y)
             if fx is None or fy is None or abs(fx - fy) > tol:
                 return False
+        elif x[0] == 'many':
+            if x[1] != y[1] or not values_equal(x[2], y[2], tol):
+                return False
+        elif x[0] == 'manyrange':
+            if x[1] != y[1] or not values_equal([x[2], x[3]], [y[2], y[3]], tol):
+                return False
         elif x[0] == 'endless':
             if (x[1] is None) != (y[1] is None):
                 return False
@@ -675,9 +727,9 @@ def op_texts(op):
     return t, alt
 
 
-def check_one(text, d, what):
+def check_one(text, d, what, k1=False):
     """the property on one text: `d` = decoded output group; returns failure text or None"""
-    ref = read_text(text)
+    ref = read_text(text, k1)
     if ref is None:
         return None                       # outside the grammar: nothing is demanded
     exp = flat(ref)
@@ -687,24 +739,16 @@ def check_one(text, d, what):
         return "%s: the checker counts %d, the scanner wrote %d cells" % (what, d["count"], d["written"])
     if d["rd"] != d["len"]:
         return "%s: the scanner consumed %d of %d bytes" % (what, d["rd"], d["len"])
-    if has_float_range(ref):
-        got = parse_cells(d["cells"])
-        if got is None:
-            return "%s: scanned cells do not form a value list" % what
-        # range headers and structure exactly; float range members within the documented tolerance
-        hdr = [c for c in d["cells"] if c[0] in "aR"]
-        if hdr != [c for c in exp if c[0] in "aR"]:
-            return "%s: structure %s, the spelling denotes %s" % (what, " ".join(d["cells"])[:200], " ".join(exp)[:200])
-        if not values_equal(expand(got, 64), expand(ref, 64), Fraction(1, 1000)):
-            return "%s: scanned %s, the spelling denotes %s" % (what, " ".join(d["cells"])[:200], " ".join(exp)[:200])
-    elif d["cells"] != exp:
+    # exact, also for float ranges: the step b - a is one IEEE subtraction, the count is the nearest n
+    # (texts whose n or tolerance test is too close to call are not sentences for the reference reader)
+    if d["cells"] != exp:
         return "%s: scanned %s, the spelling denotes %s" % (what, " ".join(d["cells"])[:200], " ".join(exp)[:200])
     return None
 
 
-def oracle(op, impl_out):
+def oracle(op, impl_out, k1=False):
     text, alt = op_texts(op)
-    ref = read_text(text)
+    ref = read_text(text, k1)
     if ref is None:
         return None
     if impl_out.startswith("crash:"):
@@ -715,7 +759,7 @@ def oracle(op, impl_out):
         return "unreadable output: " + impl_out[:200]
     if "written" not in d:
         return "the checker rejects a sentence of the grammar (count %d)" % d["count"]
-    f = check_one(text, d, "text")
+    f = check_one(text, d, "text", k1)
     if f:
         return f
     # print + scan again: equal values
@@ -738,14 +782,32 @@ def oracle(op, impl_out):
         d2 = parse_out(parts[1])
         if d2 is None or "written" not in d2:
             return "second rendering: the checker rejects it (%s)" % parts[1][:100]
-        if read_text(alt) is None:
+        if read_text(alt, k1) is None:
             return None
-        f = check_one(alt, d2, "second rendering")
+        f = check_one(alt, d2, "second rendering", k1)
         if f:
             return f
         if d2["cells"] != d["cells"] and not has_float_range(ref):
             return "two renderings of the same choices scan differently: %s vs %s" % (" ".join(d["cells"])[:200], " ".join(d2["cells"])[:200])
     return None
+
+
+def known(op, impl_out, model_out, defs):
+    """C11-K1: an unsuffixed integer literal with a leading zero ("077") is read as decimal, although the manual
+    (C99 rules) and the suffixed forms "077i" / "077h" read it as octal.  An input is attributed to the finding
+    only if (1) the trigger holds: the text (or its second rendering) contains such a literal, (2) the
+    implementation's output is what the defect-mirroring model predicts, and (3) every clause of the property holds
+    for the output when the literal is read the way the code reads it."""
+    if not any(e.get("id") == "C11-K1" for e in defs):
+        return None
+    text, alt = op_texts(op)
+    if not (k1_trigger(text) or (alt is not None and k1_trigger(alt))):
+        return None
+    if model_out is not None and model_out != impl_out:
+        return None
+    if oracle(op, impl_out, k1=True) is not None:
+        return None
+    return "C11-K1"
 
 
 def nontrivial(op):
